@@ -130,7 +130,8 @@ func c10History(c *rt.Ctx, fsType string, h int) {
 		return map[string]any{"fs": fsType, "base_dir": B, "base_dir_as_given": spell, "tree_seed": []uint64{sa, sb}, "history": hist}
 	}
 	hostile := []string{"/..", "/../" + c10Canary, "/../../" + c10Canary, "../" + c10Canary, "../../" + c10Canary, "../../../../" + c10Canary, "/w/../../" + c10Canary, "/../tmp/" + c10Canary,
-		B, B + "/w", "/.." + B, "..", "../..", "/../outside", "../outside/" + c10Canary + "-dir", "/w/a/../../../" + c10Canary, "." + B}
+		B, B + "/w", "/.." + B, "..", "../..", "/../outside", "../outside/" + c10Canary + "-dir", "/w/a/../../../" + c10Canary, "." + B,
+		"/..x", "..data", "/...", "/..", "/..cache/y", "...", "/w/..b"}
 	before := outside()
 	openedWith := map[int]string{}
 	namesInside := false
